@@ -64,6 +64,9 @@ def start_le_last(e, lst):
 
 
 def run(chk, repo):
+    chk.doc("R20.5", "the FMMU table is per terminal")
+    per_instance_rule(chk, repo, "R20.5", ["ebpfcat.ethercat.Terminal"], "a claim on one terminal "
+                      "occupies the same slot on every other terminal")
     chk.doc("R20.1", "claim what was tested")
     chk.doc("R20.2", "no free slot => failure")
     chk.doc("R20.3", "atomic claim, release of the own slot on all paths, "
